@@ -2,6 +2,7 @@ package props
 
 import (
 	"encoding/json"
+	"os"
 
 	"verif/harness/c15"
 	"verif/harness/core"
@@ -48,4 +49,16 @@ func runC15(c *core.Check) {
 	streamTLC(c, core.TLCRun{Module: "MC_C15", Parts: 4, Consts: consts, Timeout: minutes(40), KeepVars: []string{"e", "dmg"}},
 		func(st core.State) { c15.Handle(c, st) })
 	c15.FinishPeekerRecording(c)
+	// the same protocol on every parse the repository's own tests perform (their syntax-error tables
+	// are the fault-heavy inputs the maintainers care about): the suite is built with the hook tag and
+	// run with the recorder of hclsyntax/verif_hook_on.go switched on
+	pkgs := []string{"./hclsyntax/", "./hclwrite/"}
+	if c.Tier == "thorough" {
+		pkgs = []string{"./..."}
+	}
+	repo := os.Getenv("VERIF_REPO") // set only by tools/triage.sh
+	if repo == "" {
+		repo = "/repo"
+	}
+	c15.RepoTestTraces(c, repo, pkgs)
 }
